@@ -1230,7 +1230,7 @@ def budgets(ctx, factor=1):
     if ctx.quick:
         return {"exact": 240 * factor, "assembly": 30 * factor, "meta": 400 * factor, "history": 40 * factor,
                 "nbr": 200 * factor}
-    return {"exact": 2000 * factor, "assembly": 300 * factor, "meta": 3000 * factor, "history": 200 * factor,
+    return {"exact": 1500 * factor, "assembly": 200 * factor, "meta": 3000 * factor, "history": 200 * factor,
             "nbr": 2000 * factor}
 
 
